@@ -37,13 +37,13 @@ CHECKS = {
    design="4/C11"),
  "C07": dict(
    spec="spec/ResidualRule.tla, ResidualRule_MC.tla, ResidualRule_Eval.tla, Rat.tla",
-   text="The rule is specified in exact rationals of squared quantities; TLC checks the one-step lemma (1+tau_i^2) S_i = S_{i+1} for every branch index of every depth (quick: 14 depths up to 256 layers; thorough: all 1..256) x the 8x8 (mult, ratio) grid, the telescoped totals (sum of squared contributions = 1, attention:MLP = ratio^2, mean layer/embedding = mult^2) and explicit contribution products for depths <= 6, and refutes an off-by-one and a parity-swap deviation. TLC then emits tau^2 for every (mult, ratio, depth, index) and the harness compares the real rule (fresh objects, one shared rule object queried for random depth histories) and the taus wired into TransformerStack/TransformerDecoder built for several depths in random order.",
+   text="The rule is specified in exact rationals of squared quantities; TLC checks the one-step lemma (1+tau_i^2) S_i = S_{i+1} for every branch index of every depth (quick: 14 depths up to 256 layers; thorough: all 1..256) x the 8x8 (mult, ratio) grid, the telescoped totals (sum of squared contributions = 1, attention:MLP = ratio^2, mean layer/embedding = mult^2) and explicit contribution products for depths <= 6, and refutes an off-by-one and a parity-swap deviation. TLC then emits tau^2 for every (mult, ratio, depth, index) and the harness compares the real rule (fresh objects, one shared rule object queried for random depth histories) and the taus wired into TransformerStack/TransformerDecoder built for several depths in random order and in sweeps of inline (temporary) rule objects at one depth.",
    note="Trusted: float64 tau squared vs the spec's rational at 1e-12. The induction from the one-step lemma to the product identities is checked explicitly only for depths <= 6.",
    technique="TLA+ rational-arithmetic spec + TLC (lemma over all depths); replay of TLC-emitted tau^2 against the real rule and stacks",
    design="4/C07"),
  "C12": dict(
    spec="spec/Optim.tla (UpdateSize2, OutScale2, LrFactor2), Optim_MC.tla, Optim_Eval.tla",
-   text="The cross-module identity (forward scale of the layer) x (learning-rate factor of its tag) x (number of summed terms) = 1/sqrt(depth) is an invariant of Optim_MC over all small shapes (WidthIndependent). For seeded configurations (widths to 4096, kernels 1-9, depth None/1..64) TLC evaluates UpdateSize2 and the harness performs one real Adam/AdamW step (eps=0, float64, +-1 inputs, zero-free upstream gradient) on real Linear/LinearReadout/Conv1d layers and compares the move of every output coordinate with eta*sqrt(UpdateSize2) at 1e-9.",
+   text="The cross-module identity (forward scale of the layer) x (learning-rate factor of its tag) x (number of summed terms) = 1/sqrt(depth) is an invariant of Optim_MC over all small shapes (WidthIndependent). For seeded configurations (widths to 4096, kernels 1-9, depth None/1..64) TLC evaluates UpdateSize2 and the harness performs one real Adam/AdamW step (eps=0, float64, +-1 inputs, zero-free upstream gradient) on real Linear/LinearReadout/Conv1d layers and compares the move of every output coordinate with eta*sqrt(UpdateSize2) at 1e-9; the layer reaches the optimizer alone, in one explicit group before/after other layers, in a second group, or under a tensor lr.",
    note="Trusted: torch Adam semantics with eps=0; depth d realised by a DepthSequential of d layers.",
    technique="TLA+ identity checked by TLC + replay of TLC-evaluated expectations on real optimizer steps",
    design="4/C12"),
@@ -56,7 +56,7 @@ CHECKS = {
  "C02": dict(
    spec="spec/Tape.tla, Tape_MC.tla, ScaledOps.tla, ScaledOps_Trace.tla",
    text="Tape specifies scale_fwd/scale_bwd on a (value multiplier, gradient multiplier) pair; TLC explores every chain of <= 3 primitives over 10 signed rational factors (0, negatives, +-1000) and emits each with its expected multipliers, which are replayed on the real primitives. The C01 configuration space x every differentiable input x two data draws x two upstream gradients + a repeated call is run against autograd of the torch reference; the log is validated by ScaledOps_Trace (one positive factor class per (configuration, input); exact direction).",
-   note="As C01; mean-reduced losses use the sum-reduced reference for gradients.",
+   note="As C01; mean-reduced losses use the sum-reduced reference for gradients. Gradient slots whose conditioning on the given data is poor (measured on PyTorch alone: the same reference in a second precision) are skipped and counted.",
    technique="TLA+ tape spec + TLC chain enumeration replayed on the primitives; trace validation of gradient logs",
    design="4/C02"),
  "C03": dict(
@@ -79,7 +79,7 @@ CHECKS = {
    design="4/C06"),
  "C18": dict(
    spec="spec/TrackScales.tla, TrackScales_MC.tla, TrackScales_Trace.tla",
-   text="TrackScales contains a reverse-mode interpreter over small integer vectors and the instrumentation rule of run_node (identity tracker after every float node). TLC checks for every program with <= 2 ops (thorough: 3 ops by simulation), fan-out, bool masks, detached branches and 1-2 outputs that instrumentation leaves values and input gradients unchanged, that the tracker sees the value that flowed and the TOTAL gradient (summed over all consumers), and that non-float values are never instrumented; a detaching tracker is refuted. Real module graphs (direct backend, analyse_module's interpreter, TorchDynamo track_scales) are run with and without tracking (bitwise comparison) and every recorded metric is validated by TrackScales_Trace against integer sums captured independently with a plain fx.Interpreter + retain_grad.",
+   text="TrackScales contains a reverse-mode interpreter over small integer vectors and the instrumentation rule of run_node (identity tracker after every float node). TLC checks for every program with <= 2 ops (thorough: 3 ops by simulation), fan-out, bool masks, detached branches and 1-2 outputs that instrumentation leaves values and input gradients unchanged, that the tracker sees the value that flowed and the TOTAL gradient (summed over all consumers), and that non-float values are never instrumented; a detaching tracker is refuted. Real module graphs (direct backend, analyse_module's interpreter, TorchDynamo track_scales) are run with and without tracking (bitwise comparison) and every recorded metric is validated by TrackScales_Trace against integer sums captured independently with a plain fx.Interpreter + retain_grad; a second family runs float64/float32 graphs on dyadic non-integer values (exact sums, not representable in a narrower type) with the statistics compared in float64.",
    note="Integer-valued tensors (|v| <= 64) make mean_abs/abs_mean/abs_max/abs_min/numel exact rationals; std is compared through std^2 n(n-1) with a slack of 8 + exact/2^18 (metrics are float32). Graphs leaving the exact range are skipped and counted.",
    technique="TLA+ reverse-mode interpreter spec + TLC; trace validation of recorded metrics against independently captured tensors",
    design="4/C18"),
@@ -98,24 +98,24 @@ CHECKS = {
  "C15": dict(
    spec="spec/SimFormat.tla, SimFormat_MC.tla, SimFormat_Eval.tla, Quantise.tla, Quantise_Trace.tla, FxGraph.tla",
    text="SimFormat models the argument-splicing rewrite of _quantisation_backend, the meaning of the four _quantised_* wrappers as explicit straight-through Qf/Qb nodes, and a declarative recipe built straight from the input graph; TLC checks Expand(Rewrite(G)) = Recipe(G) (up to argument-passing style), that nothing else changes and that no parameter is bound twice for every graph with <= 2 (thorough 3) op nodes over all call styles, refuting the two pre-fix deviations. Straight-through bit patterns are validated by Quantise_Trace. For random real FX graphs (depth 1-12, inputs of rank 2-4) TLC emits the recipe graph, which is built into a reference module and compared BITWISE (outputs and every gradient, random source pinned) with the module produced by the real backend for nearest / stochastic / explicit-srbits / lossless format pairs; a module family goes through simulate_format/simulate_fp8 (TorchDynamo) against hand-written references.",
-   note="FPFormat.quantise itself is trusted here (C13/C14). Lossless-vs-original gradients are compared up to float32 re-association (1e-5), because the inserted autograd nodes permute the accumulation order of tensors with >= 3 consumers; outputs bitwise. Known finding: a root module that is itself a torch.nn layer is not transformed.",
+   note="FPFormat.quantise itself is trusted here (C13/C14). Lossless-vs-original gradients are compared up to float32 re-association (64 x the distance of the original float32 gradients from float64 gradients of the same module), because the inserted autograd nodes permute the accumulation order of tensors with >= 3 consumers; outputs bitwise. Known finding: a root module that is itself a torch.nn layer is not transformed.",
    technique="TLA+ rewrite-refines-recipe spec + TLC; TLC-emitted recipe graphs replayed as reference modules against the real transform",
    design="4/C15"),
  "C17": dict(
    spec="spec/Transforms.tla, Transforms_MC.tla, Transforms_Trace.tla",
-   text="Transforms models apply_transform as a heap of modules (backend list, lazy re-trace flag, cached pipeline copied by reference on deepcopy, _order_backends) with Apply and Call actions. TLC explores every history with <= 4 modules and <= 3 calls (233k states; transforms may branch from any module, calls interleaved) and checks: the original is never touched, every pipeline is canonical (each transform once, unit scaling before quantisation, track/compile last), the pipeline in effect at a call is the module's own, same transform set => same pipeline, repeated calls do not re-run; a stale-cache and a no-reorder deviation are refuted. Histories are replayed on a family of real modules; per step the harness records which backends actually ran (library log records), a bitwise fingerprint of outputs and gradients (seeds pinned), whether any other module's parameters/buffers changed and storage sharing; Transforms_Trace validates each history (nothing else modified, storage disjoint, canonical pipeline, the computed function depends only on the set of transforms).",
-   note="Backend-list and flag bookkeeping is compared as drift only (torch._dynamo.reset() in one module's call can make another module re-run its backends without changing results). compile (Inductor) only in the thorough tier.",
+   text="Transforms models apply_transform as a heap of modules (backend list, lazy re-trace flag, cached pipeline copied by reference on deepcopy, _order_backends) with Apply and Call actions. TLC explores every history with <= 4 modules and <= 3 calls (233k states; transforms may branch from any module, calls interleaved) and checks: the original is never touched, every pipeline is canonical (each transform once, unit scaling before quantisation, track/compile last), the pipeline in effect at a call is the module's own, same transform set => same pipeline, repeated calls do not re-run; a stale-cache and a no-reorder deviation are refuted. Histories are replayed on a family of real modules; per step the harness records which backends actually ran (library log records), a bitwise fingerprint of outputs and gradients (seeds pinned), whether any other module's parameters/buffers changed and storage sharing; Histories come from the harness AND from TLC itself (Transforms_Gen: all 1170 maximal histories with 3 modules x 3 calls, quick replays 30, thorough all + simulated 5x5 histories). Transforms_Trace validates each history (nothing else modified, storage disjoint, canonical pipeline, the computed function depends only on the set of transforms).",
+   note="Backend-list and flag bookkeeping is compared as drift only; the model includes the global torch._dynamo.reset() of a first call (other modules re-trace with their own pipeline), so the unchanged tree is drift-free. compile (Inductor) only in the thorough tier.",
    technique="TLA+ heap-of-modules state machine + TLC over all histories; trace validation of replayed transform/call histories",
    design="4/C17"),
  "C08": dict(
    spec="spec/Modules.tla, Modules_MC.tla",
-   text="Modules.tla is the table of the 11 leaf modules: constructor options over their valid values (plus the values the library declares unsupported), the functional op each must equal, the ARGUMENT MAPPING (which option / parameter / mode feeds which functional argument, incl. the padded-input rule of Conv1d), parameter tags and initial-value classes, and the depth-container rule. TLC enumerates all 2338 configurations, checks that every option is forwarded, consumed by construction or rejected and that tags are known to the optimizer rules, and emits each configuration with its expectation. Every configuration is constructed for real: module(x) and all gradients are compared BITWISE with the functional call assembled from the spec's mapping (train/eval, two input shapes, pinned RNG), with the torch.nn twin (shape, positive scalar multiple), tags and initial values; composite modules (MLP, MHSA, TransformerLayer, TransformerDecoder) against compositions of functional ops on their own parameters; depth containers tag depth and refuse untagged parameters.",
+   text="Modules.tla is the table of the 11 leaf modules: constructor options over their valid values (plus the values the library declares unsupported), the functional op each must equal, the ARGUMENT MAPPING (which option / parameter / mode feeds which functional argument, incl. the padded-input rule of Conv1d), parameter tags and initial-value classes, and the depth-container rule. TLC enumerates all 2338 configurations, checks that every option is forwarded, consumed by construction or rejected and that tags are known to the optimizer rules, and emits each configuration with its expectation. Every configuration is constructed for real: module(x) and all gradients are compared BITWISE with the functional call assembled from the spec's mapping (train/eval, two input shapes, pinned RNG), with the torch.nn twin (shape, positive scalar multiple), tags and initial values; composite modules (MLP, MHSA, TransformerLayer, TransformerDecoder) against compositions of functional ops on their own parameters; depth containers (every construction form: positional, OrderedDict, list, generator, composite children, TransformerStack; depths 1-6) tag depth = number of children, apply their layers in order and refuse untagged parameters.",
    note="Unit-variance of fresh weights is a sampling-error bound (5 sigma) on large instances. The composite references are harness-coded compositions of unit_scaling.functional.",
    technique="TLA+ option/argument-mapping table + TLC enumeration; replay of TLC-emitted configurations against real modules",
    design="4/C08"),
  "C20": dict(
    spec="spec/ScaledOps.tla (memo machine, Modes), ScaledOps_MC.tla, ScaledOps_Trace.tla",
-   text="The memo machine of ScaledOps keys a factor class by (configuration, slot) only; the events of one configuration recorded in eager mode, under torch.compile (aot_eager; thorough: inductor), through the library's leaf-wrapping tracer (gradients) and through plain fx.symbolic_trace (forward, where traceable) carry the same configuration id, so ScaledOps_Trace rejects a factor that differs between modes. In addition outputs and gradients are compared element-wise with the eager run with a dtype-scaled bound (float64: 1e-12), for a slice of the C01/C02 configurations (every op, f64/f32/bf16) and for random compositions of 2-6 unit-scaled ops and modules.",
+   text="The memo machine of ScaledOps keys a factor class by (configuration, slot) only; the events of one configuration recorded in eager mode, under torch.compile (aot_eager; thorough: inductor), through the library's leaf-wrapping tracer (gradients) and through plain fx.symbolic_trace (forward, where traceable) carry the same configuration id, so ScaledOps_Trace rejects a factor that differs between modes. In addition outputs and gradients are compared element-wise with the eager run with a dtype-scaled bound (float64: 1e-12; compositions: 64 x their float32-vs-float64 amplification x eps), for a slice of the C01/C02 configurations (every op, f64/f32/bf16) and for random compositions of 2-6 unit-scaled ops and modules.",
    note="TorchDynamo/AOT autograd/Inductor are trusted as given. Dropout with p>0 in training mode is excluded (RNG streams differ in torch itself). Ops that plain torch.fx cannot trace symbolically are skipped for the fx clause and counted in the evidence.",
    technique="TLA+ memo machine across execution modes; trace validation + element-wise closeness to eager",
    design="4/C20"),
